@@ -831,6 +831,23 @@ def check_bypasses(eng, rep, rule: str, prims: Prims, disp: FuncInfo, P: List[st
     return bool(bys)
 
 
+def validation_guards(effs: List) -> List[str]:
+    """conditions of the raise-only guards that canon_effects leaves out of the grammar (reported as undecided by the callers)"""
+    out = []
+
+    def only_raise(es) -> bool:
+        return bool(es) and all(x[0] == "raise" or (x[0] == "if" and only_raise(x[2])) for x in es)
+
+    def go(es):
+        for e in es:
+            if e[0] == "if" and only_raise(e[2]):
+                out.append(str(e[1])[:90])
+            elif e[0] in ("if", "loop"):
+                go(e[2])
+    go(effs)
+    return out
+
+
 def canon_effects(effs: List, side: str) -> str:
     """Canonical text of an effect list; prefix/flag relations are made explicit."""
     out = []
